@@ -120,8 +120,10 @@ class Collection(_Project):
 
     def packages(self) -> list[Package]:
         """Return the list of packages in the collection."""
+        # sorted, so the order packages are added in does not depend on
+        # how the file system lists the directory
         return [Package(path)
-                for path in self._path.iterdir()
+                for path in sorted(self._path.iterdir())
                 if is_package_directory(path)]
 
 
